@@ -29,7 +29,7 @@ claimed = {
    note="Closed bounds; one look-ahead key per poll; cursor creation/seek without reads tolerated; union of conjunct regions. The trace is a deterministic function of (statement, store, batch, mode); the simulator contributes the vantage point and generated/history-built stores.",
    tech="deterministic simulation: invariant monitor over the simulated disk's read trace"),
  "C19": dict(cat="exploration", ref="§4 C19, §10.2",
-   text="Seeded schedule search: 2..16 client goroutines running real kvql code under a token scheduler that decides who runs at every storage call (entry and return) and at 17 library-internal yield points (verif hook), from per-client replayable schedules; four store topologies; half of the scenarios with per-client storage faults; binary built with -race and the token hand-off invisible to the detector, so any unsynchronised conflicting access to library state by two clients is reported deterministically. Oracles: each statement's result equals its solo-schedule result (private / shared read-only / shared read-write with per-client prefixes), and in the contended topology the history of point reads and writes of shared hot keys is linearizable against a per-key register model (porcupine).",
+   text="Seeded schedule search: 2..16 client goroutines running real kvql code under a token scheduler that decides who runs at every storage call (entry and return) and at 20 library-internal yield points (verif hook), from per-client replayable schedules; four store topologies; half of the scenarios with per-client storage faults; binary built with -race and the token hand-off invisible to the detector, so any unsynchronised conflicting access to library state by two clients is reported deterministically. Oracles: each statement's result equals its solo-schedule result (private / shared read-only / shared read-write with per-client prefixes), and in the contended topology the history of point reads and writes of shared hot keys is linearizable against a per-key register model (porcupine).",
    note="amd64 TSO; yields only at storage calls and at the hook sites; sync.Pool inside fmt/regexp may add hidden edges; knobs fixed before clients start; solo run shares the process with the concurrent run. Race reports without kvql frames are harness defects (exit 2).",
    tech="deterministic simulation: seeded interleaving search with a race-invisible token scheduler (storage-call and library-internal yield points), race detector armed, solo-run oracle, porcupine linearizability check of the recorded history"),
  "C03": dict(cat="exploration", ref="§4 C03",
@@ -83,9 +83,9 @@ def main():
         "setup_cmd": "./run_check.sh setup",
         "hooks": {
             "guard": "verif",
-            "enable": "go build -tags verif (run_check.sh builds every check that way); the tag compiles simyield_verif.go (package variable kvql.SimYield, nil by default) instead of simyield_off.go (empty inlinable simYield), making the 19 one-line simYield(site) calls in the library scheduling points for C19's token scheduler. All other seams are existing interfaces (kvql.Storage/kvql.Cursor) and exported knobs (PlanBatchSize, EnableFieldCache).",
+            "enable": "go build -tags verif (run_check.sh builds every check that way); the tag compiles simyield_verif.go (package variable kvql.SimYield, nil by default) instead of simyield_off.go (empty inlinable simYield), making the 22 one-line simYield(site) calls in the library scheduling points for C19's token scheduler. All other seams are existing interfaces (kvql.Storage/kvql.Cursor) and exported knobs (PlanBatchSize, EnableFieldCache).",
             "baseline_off_cmd": "cd /repo && go test -vet=off -count=1 ./...",
-            "source_commits": ["5a5463f"],
+            "source_commits": ["5a5463f", "e8ae95b"],
             "add_only": True,
         },
         "engines": [{
